@@ -39,14 +39,17 @@ class Starved(Exception):
 class _FakeTime:
     """Replacement for the `time` module inside streamz.sources while a case runs."""
 
-    def __init__(self, loop):
+    def __init__(self, loop, broker=None):
         self.loop = loop
+        self.broker = broker
         self.starved = 0
 
     def time(self):
         return self.loop.time()
 
     def sleep(self, dt):
+        if self.broker is not None and getattr(self.broker, "last_poll_none", True) is False:
+            return          # get_message_batch sleeps 0.1 s after a message it skips (empty value): it will poll again
         self.starved += 1
         raise Starved("get_message_batch would block: no message at the requested offset")
 
@@ -211,7 +214,7 @@ def run_impl(case, ops):
     resolved = []
 
     async def main(loop):
-        ft = _FakeTime(loop)
+        ft = _FakeTime(loop, br)
         old_time = ssources.time
         ssources.time = ft
         inc = None
@@ -222,7 +225,19 @@ def run_impl(case, ops):
                 rop = list(op)
                 if op[0] == "produce":
                     if op[1] < len(br.topics[TOPIC]):
-                        br.produce(TOPIC, op[1], op[2])
+                        tm = case.get("tomb")
+                        if tm:
+                            # some messages carry an empty value (tombstones): get_message_batch skips them.  Never the last message
+                            # of a produce operation, so that a range never ends in a tombstone with nothing behind it.
+                            for j in range(op[2]):
+                                off = br.topics[TOPIC][op[1]].high
+                                if j < op[2] - 1 and off % tm[0] == tm[1]:
+                                    br.produce(TOPIC, op[1], 1, value=b"")
+                                    ev.setdefault("tomb", []).append([op[1], off])
+                                else:
+                                    br.produce(TOPIC, op[1], 1)
+                        else:
+                            br.produce(TOPIC, op[1], op[2])
                 elif op[0] == "add":
                     br.add_partitions(TOPIC, op[1])
                 elif op[0] == "trunc":
@@ -361,7 +376,10 @@ def model_lines(case, rops, events):
 
 def compare_with_model(ctx, item, events, rops, answers, where):
     """Diff implementation events against the model's answers.  True when they agree."""
+    tombs = {}
     for i, (ev, op, idx) in enumerate(zip(events, rops, where)):
+        for p, off in ev.get("tomb", []):
+            tombs.setdefault(p, set()).add(off)
         want = {"emit": [], "commit": []}
         for k in idx:
             a = answers[k]
@@ -372,7 +390,9 @@ def compare_with_model(ctx, item, events, rops, answers, where):
             want["commit"] += a.get("commit", [])
             if "positions" in a:
                 want["positions"] = a["positions"]
-        got = {"emit": ev["emit"], "commit": ev["commit"]}
+        # the model knows ranges, not values: the offsets of empty-valued messages (skipped by get_message_batch) are put back
+        got = {"emit": [[p, lo, hi, sorted(set(offs) | {t for t in tombs.get(p, ()) if lo <= t <= hi})] for p, lo, hi, offs in ev["emit"]],
+               "commit": ev["commit"]}
         if "positions" in want:
             got["positions"] = ev.get("positions")
         if got != want:
@@ -406,7 +426,10 @@ class Oracle:
 
     def feed(self, events, rops):
         prev_wm, prev_comm = [[0, 0]] * self.case["nparts"], [NONE] * self.case["nparts"]
+        tombs = {}
         for i, (ev, op) in enumerate(zip(events, rops)):
+            for p_, off_ in ev.get("tomb", []):
+                tombs.setdefault(p_, set()).add(off_)
             for e in ev.get("error", []):
                 if "starved" in e:
                     self.fail("batch-unreadable", "op %d %r: %s (a range reaches past the messages that exist)" % (i, op, e))
@@ -458,7 +481,7 @@ class Oracle:
                             want = low
                         if lo != want:
                             self.fail("first-range-not-at-reset-position", "op %d: first range of partition %d is [%d,%d]; no committed offset, reset position %d (%s)" % (i, p, lo, hi, want, self.case["reset"]))
-                if offs != list(range(lo, hi + 1)):
+                if offs != [o for o in range(lo, hi + 1) if o not in tombs.get(p, ())]:
                     self.fail("batch-content", "op %d: get_message_batch for partition %d [%d,%d] returned offsets %r" % (i, p, lo, hi, offs))
                 rs.append([lo, hi, False, False])      # lo, hi, completely processed, processing raised
             # failures below the source: synchronous ones come with the poll that emitted the batch,
@@ -562,6 +585,9 @@ def gen_case(rng):
             "refresh": rng.random() < 0.5, "nparts": nparts, "npart_cfg": None, "keys": rng.random() < 0.25}
     if rng.random() < 0.2:
         case["npart_cfg"] = rng.randint(1, nparts)
+    if rng.random() < 0.2:
+        m = rng.choice([2, 3, 3, 4])
+        case["tomb"] = [m, rng.randrange(m)]      # offsets in this residue class carry an empty value (unless last of their produce op)
     inorder = rng.random() < 0.6
     # half of the histories contain failures below the source
     faulty = rng.random() < 0.5
@@ -719,7 +745,8 @@ def judge(ctx, rec, answers, where):
 ASSUMPTIONS = [
     "the Kafka client is an in-memory fake of confluent_kafka (harness/fake_confluent_kafka.py); librdkafka and a real broker are not exercised",
     "one source per consumer group (no rebalancing, nobody else commits for the group); partitions are only ever added",
-    "message values are non-empty (get_message_batch skips falsy values and would wait forever for a tombstone that ends a batch)",
+    "message values are non-empty, except that a fifth of the histories put empty-valued messages (tombstones) inside produce operations, never as "
+    "the last message of one (get_message_batch skips falsy values; it would wait forever for a tombstone with nothing behind it)",
     "an explicit npartitions argument never exceeds the number of partitions of the topic",
     "a crash is modelled at the granularity of harness events (between two events the loop is quiescent); a restart uses a fresh copy of the configuration",
     "downstream of the source the batch's reference is held by a harness node until the harness completes the batch, or (consumer=asink) by the "
